@@ -216,3 +216,38 @@ package binary
 // in the series loaders of coalesce operators, which contain the panics of storage callbacks.
 //@ func (*vectorOperator).initOutputs$1
 //@   trusted assumed not to let a panic escape: it calls Series of the left operand only; storage callbacks of that call run on the recovering loaders of a coalesce operator
+
+// signature (C05): the match key and the result labels of one operand series, as the reference engine's
+// signature functions and resultMetric compute them:
+//  - ignoring(L) / no modifier: the key is the hash of all labels except L and - unless the name is kept
+//    (filtering comparison) - the metric name; on(L): the key is the hash of exactly the labels L (0 for on());
+//  - the metric name is deleted from the result labels unless it is kept;
+//  - one-to-one results additionally keep only L (on) or lose L (ignoring); many-to-one results keep the labels.
+//@ func signature
+//@   assigns elems(string)@grouping
+//@   ensures[C05] ignoring-key-covers-everything-but-the-listed-labels-and-the-name: without ==> ncalls("labels.(Labels).HashWithoutLabels") == 1 && ncalls("labels.(Labels).HashForLabels") == 0 &&
+//@       result0 == callres("labels.(Labels).HashWithoutLabels", 1, 0)
+//@   at labels.(Labels).HashWithoutLabels assert[C05] ignoring-key-arguments: sameslice($ls, metric) && len($names) == len(grouping) + ite(keepName, 0, 1) &&
+//@       (forall j in 0..len(grouping) :: $names[j] == grouping[j]) && (!keepName ==> $names[len(grouping)] == "__name__")
+//@   ensures[C05] on-key-covers-exactly-the-listed-labels: !without && len(grouping) > 0 ==> ncalls("labels.(Labels).HashForLabels") == 1 && ncalls("labels.(Labels).HashWithoutLabels") == 0 &&
+//@       result0 == callres("labels.(Labels).HashForLabels", 1, 0)
+//@   at labels.(Labels).HashForLabels assert[C05] on-key-arguments: sameslice($ls, metric) && sameslice($names, grouping)
+//@   ensures[C05] on-nothing-matches-everything: !without && len(grouping) == 0 ==> result0 == 0
+//@   at labels.NewBuilder assert[C05,C17] result-labels-built-from-a-copy-of-the-series-labels: sameslice($base, metric)
+//@   at labels.(*Builder).Del #1 assert[C05] name-deleted-unless-kept: !keepName ==> len($ns) == 1 && $ns[0] == "__name__"
+//@   ensures[C05] name-deleted-unless-kept-count: !keepName ==> ncalls("labels.(*Builder).Del") >= 1
+//@   ensures[C05] one-to-one-on-keeps-only-the-listed-labels: !without && !keepOriginalLabels ==> ncalls("labels.(*Builder).Keep") == 1
+//@   at labels.(*Builder).Keep assert[C05] kept-labels-are-the-listed-ones: sameslice($ns, grouping)
+//@   ensures[C05] many-to-one-keeps-the-labels: keepOriginalLabels ==> ncalls("labels.(*Builder).Keep") == 0 && ncalls("labels.(*Builder).Del") == ite(keepName, 0, 1)
+//@   ensures[C05] one-to-one-ignoring-drops-the-listed-labels: without && !keepOriginalLabels ==> ncalls("labels.(*Builder).Del") == ite(keepName, 1, 2)
+
+// hashSeries (C05): every series of an operand is keyed by the operator's own matching (on/ignoring list,
+// keep-labels and keep-name flags); series i is recorded under its key with id i.
+//@ func (*vectorOperator).hashSeries
+//@   requires o != nil && o.matching != nil
+//@   assigns elems(string)@o.groupingLabels
+//@   at binary.signature assert[C05] every-series-is-keyed-with-the-operators-matching: sameslice($metric, series[i]) && $without == !o.matching.On &&
+//@       sameslice($grouping, o.groupingLabels) && $keepOriginalLabels == keepLabels && $keepName == keepName
+//@   loop 0 invariant o != nil && o.matching != nil && !isnil(hashes) && !isnil(inputIndex)
+//@   loop 0 invariant buckets-are-this-calls-own: (forall k in ALL..ALL :: has(hashes, k) ==> fresh(hashes[k]) || isnil(hashes[k])) &&
+//@       (forall k in ALL..ALL :: has(inputIndex, k) ==> fresh(inputIndex[k]) || isnil(inputIndex[k]))
